@@ -396,17 +396,43 @@ pub enum GOp {
     /// return ip/bits although it is not held: carried out only when the whole block is free
     /// at that moment (a redundant return, which must change nothing)
     Q { ip: u32, bits: u32 },
+    /// constructor none() only: return ip/bits although it never belonged to the generator - this
+    /// is how a pool is put together (the description generator does it); carried out only when
+    /// the block overlaps nothing that is free or held
+    S { ip: u32, bits: u32 },
 }
 
 #[derive(Serialize, Deserialize, Clone, Debug)]
 pub struct GCase {
-    /// 0 = new(range a..=b), 1 = new_sub(a/bits), 2 = new_sub_no_ends(a/bits)
+    /// 0 = new(range a..=b), 1 = new_sub(a/bits), 2 = new_sub_no_ends(a/bits),
+    /// 3 = none() (the pool is what S operations supply), 4 = blocked_out()
     pub ctor: u8,
     pub a: u32,
     pub b: u32,
     pub bits: u32,
     pub ops: Vec<GOp>,
 }
+
+/// The blocks IpGenerator::block_reserved_ips documents (IANA special-purpose addresses).
+const RESERVED: [([u8; 4], u32); 17] = [
+    ([0, 0, 0, 0], 8),
+    ([10, 0, 0, 0], 8),
+    ([100, 64, 0, 0], 10),
+    ([127, 0, 0, 0], 8),
+    ([169, 254, 0, 0], 16),
+    ([172, 16, 0, 0], 12),
+    ([192, 0, 0, 0], 24),
+    ([192, 0, 2, 0], 24),
+    ([192, 88, 99, 0], 24),
+    ([192, 168, 0, 0], 16),
+    ([198, 18, 0, 0], 15),
+    ([198, 51, 100, 0], 24),
+    ([203, 0, 113, 0], 24),
+    ([224, 0, 0, 0], 4),
+    ([233, 252, 0, 0], 24),
+    ([240, 0, 0, 0], 4),
+    ([255, 255, 255, 255], 32),
+];
 
 fn net(ip: u32, bits: u32) -> Ipv4Net {
     Ipv4Net::new(Ipv4Address::from(ip), Ipv4Mask::from_bitcount(bits))
@@ -476,13 +502,22 @@ fn run_gen(case: &GCase) -> Outcome {
             let (a, b) = net_range(case.a, case.bits);
             (Free(vec![(a, b)]), (a, b))
         }
-        _ => {
+        2 => {
             let (a, b) = net_range(case.a, case.bits);
             if b >= a + 2 {
                 (Free(vec![(a + 1, b - 1)]), (a, b))
             } else {
                 (Free(vec![]), (a, b))
             }
+        }
+        3 => (Free(vec![]), (0, u32::MAX as u64)),
+        _ => {
+            let mut f = Free(vec![(0, u32::MAX as u64)]);
+            for (ip, bits) in RESERVED {
+                let (a, b) = net_range(u32::from_be_bytes(ip), bits);
+                f.remove(a, b);
+            }
+            (f, (0, u32::MAX as u64))
         }
     };
     let built = catching(|| match case.ctor {
@@ -491,7 +526,9 @@ fn run_gen(case: &GCase) -> Outcome {
             Ipv4Address::from(case.a.max(case.b)),
         )),
         1 => IpGenerator::new_sub(net(case.a, case.bits)),
-        _ => IpGenerator::new_sub_no_ends(net(case.a, case.bits)),
+        2 => IpGenerator::new_sub_no_ends(net(case.a, case.bits)),
+        3 => IpGenerator::none(),
+        _ => IpGenerator::blocked_out(),
     });
     let mut g = match built {
         Ok(g) => g,
@@ -506,7 +543,7 @@ fn run_gen(case: &GCase) -> Outcome {
     if pool.1 == u32::MAX as u64 {
         out.count("probe_pool_touches_255_255_255_255");
     }
-    let ctor_name = ["new", "new_sub", "new_sub_no_ends"][case.ctor.min(2) as usize];
+    let ctor_name = ["new", "new_sub", "new_sub_no_ends", "none", "blocked_out"][case.ctor.min(4) as usize];
     let mut held: Vec<(u64, u64)> = vec![];
     for op in &case.ops {
         out.steps += 1;
@@ -577,6 +614,26 @@ fn run_gen(case: &GCase) -> Outcome {
                     }
                 }
             }
+            GOp::S { ip, bits } => {
+                let (a, b) = net_range(ip, bits);
+                if case.ctor != 3 || free.0.iter().any(|(x, y)| a <= *y && *x <= b) || held.iter().any(|(x, y)| a <= *y && *x <= b) {
+                    continue;
+                }
+                let r = catching(|| {
+                    if bits == 32 {
+                        g.return_ip(Ipv4Address::from(ip))
+                    } else {
+                        g.return_subnet(net(ip, bits))
+                    }
+                });
+                if let Err(p) = r {
+                    out.violate(Violation::new("panic", &panic_class(&p), format!("return into an empty generator panicked: {}", p.msg)));
+                    break;
+                }
+                free.add(a, b);
+                out.count("probe_pool_supplied_by_returns");
+                fnv_u64(&mut h, a ^ b << 32 ^ 3);
+            }
             GOp::Q { ip, bits } => {
                 let (a, b) = net_range(ip, bits);
                 if !free.contains_all(a, b) {
@@ -640,6 +697,30 @@ fn run_gen(case: &GCase) -> Outcome {
             ));
         }
     }
+    // what is left, enumerated by the generator's own iterator, is the free set of the model
+    let left: u64 = free.0.iter().map(|(a, b)| b - a + 1).sum();
+    if out.violations.is_empty() && left <= 3000 {
+        let want: Vec<u64> = free.0.iter().flat_map(|(a, b)| *a..=*b).collect();
+        let g2 = g.clone();
+        match catching(|| g2.into_ip_iter().take(3100).map(|ip| ip.to_u32() as u64).collect::<Vec<u64>>()) {
+            Ok(mut got) => {
+                out.count("probe_remaining_pool_enumerated");
+                let n = got.len();
+                got.sort();
+                got.dedup();
+                if got.len() != n {
+                    out.violate(Violation::new("iterator", &format!("address-twice|{ctor_name}"), format!("into_ip_iter yielded {n} addresses, {} distinct", got.len())));
+                } else if got != want {
+                    out.violate(Violation::new(
+                        "iterator",
+                        &format!("not-the-free-set|{ctor_name}"),
+                        format!("into_ip_iter yields {} addresses, the model has {} free ({:?})", got.len(), want.len(), free.0),
+                    ));
+                }
+            }
+            Err(p) => out.violate(Violation::new("panic", &panic_class(&p), format!("into_ip_iter panicked: {}", p.msg))),
+        }
+    }
     out.trace_hash = h ^ (case.ctor as u64) << 56 ^ case.a as u64;
     out.shape_hash = h;
     out.nontrivial = case.ops.len() > 1;
@@ -648,7 +729,17 @@ fn run_gen(case: &GCase) -> Outcome {
 
 fn gen_gcase(seed: u64, opts: &RunOpts) -> GCase {
     let mut rng = Rng::new(seed);
-    let ctor = if opts.avoids("no_new_sub_no_ends") { rng.below(2) as u8 } else { rng.below(3) as u8 };
+    let ctor = if opts.avoids("no_new_sub_no_ends") {
+        rng.below(2) as u8
+    } else {
+        match rng.below(8) {
+            0 | 1 => 0,
+            2 | 3 => 1,
+            4 | 5 => 2,
+            6 => 3,
+            _ => 4,
+        }
+    };
     let bits = *rng.pick(&[0u32, 8, 16, 20, 24, 24, 26, 28, 29, 30, 30, 31, 32]);
     let a = match rng.below(5) {
         0 => 0,
@@ -679,7 +770,21 @@ fn gen_gcase(seed: u64, opts: &RunOpts) -> GCase {
     let span = hi - lo + 1;
     let n = rng.range(1, 60);
     let redundant = !opts.avoids("no_redundant_returns") && rng.chance(1, 2);
+    if ctor == 3 {
+        // the pool of an empty generator is what gets returned into it
+        for _ in 0..rng.range(1, 4) {
+            let nb = *rng.pick(&[32u32, 32, 30, 29, 28, 26, 24]);
+            let ip = (lo + rng.below(span.min(1 << 12))) as u32;
+            case.ops.push(GOp::S { ip, bits: nb });
+        }
+    }
     for _ in 0..n {
+        if ctor == 3 && rng.chance(1, 10) {
+            let nb = *rng.pick(&[32u32, 30, 28, 24]);
+            let ip = (lo + rng.below(span.min(1 << 12))) as u32;
+            case.ops.push(GOp::S { ip, bits: nb });
+            continue;
+        }
         let op = match rng.below(if redundant { 12 } else { 10 }) {
             0 | 1 => {
                 let nb = *rng.pick(&[32u32, 31, 30, 28, 24]);
